@@ -1,0 +1,7 @@
+//go:build verif
+
+package tlparser
+
+// VerifPos exposes the cursor position (index into the rune slice) and the number of runes.
+// Read-only export for the verification harness.
+func (p *Cursor) VerifPos() (pos, length int) { return p.pos, len(p.source) }
